@@ -1327,6 +1327,25 @@ impl<'a> Ctx<'a> {
         Ok(Emitted { text: out, canary: None, src_line: line })
     }
 
+    /// names of the top-level `const` items of a source file that are active in this configuration
+    pub fn top_consts(&mut self, file: &str) -> Result<Vec<String>, String> {
+        if file.starts_with('@') {
+            return Ok(vec![]);
+        }
+        self.load(file)?;
+        let mut out = vec![];
+        let items: Vec<(String, Vec<Attribute>)> = self.sources[file].ast.items.iter().filter_map(|it| match it {
+            syn::Item::Const(c) => Some((c.ident.to_string(), c.attrs.clone())),
+            _ => None,
+        }).collect();
+        for (n, attrs) in items {
+            if self.attrs_on(&attrs)? {
+                out.push(n);
+            }
+        }
+        Ok(out)
+    }
+
     pub fn inherent_methods(&mut self, file: &str, ty: &str) -> Result<Vec<String>, String> {
         self.load(file)?;
         let mut out = vec![];
@@ -1637,6 +1656,7 @@ struct Gen<'a> {
     proved_elsewhere: Vec<String>,
     emitted_fns: HashSet<String>,
     included: HashSet<String>,
+    deferred_consts: Vec<(String, String)>,
 }
 
 fn kv<'x>(parts: &[&'x str], key: &str) -> Option<&'x str> {
@@ -1907,6 +1927,35 @@ impl<'a> Gen<'a> {
                         }
                         let e = self.ctx.extract_fn(&fs)?;
                         self.emitted_fns.insert(fs.path.clone());
+                        // R16: a top-level `const` of the same file that the body names and the unit does not have yet is
+                        // copied too (counted): a new constant in a function under contract is code, not a lost anchor
+                        if !fs.external {
+                            for c in self.ctx.top_consts(&fs.file)? {
+                                let named = e.text.match_indices(c.as_str()).any(|(k, _)| {
+                                    let b = e.text.as_bytes();
+                                    let before = k == 0 || !(b[k - 1].is_ascii_alphanumeric() || b[k - 1] == b'_');
+                                    let after = k + c.len() >= b.len() || !(b[k + c.len()].is_ascii_alphanumeric() || b[k + c.len()] == b'_');
+                                    before && after
+                                });
+                                let have = self.out.contains(&format!("const {c}:")) || self.out.contains(&format!("const {c} :"));
+                                if named && !have {
+                                    if self.deferred_consts.iter().any(|(n, _)| n == &c) {
+                                        continue;
+                                    }
+                                    if let Ok(it) = self.ctx.extract_item(&fs.file, &c, None) {
+                                        self.ctx.cnt.bump("R16_auto_const");
+                                        if fs.path.starts_with("::") {
+                                            // a free function: module level, the constant can go right before it
+                                            self.emit(&it.text);
+                                        } else {
+                                            // a method: we are inside an `impl` block; the constant goes to module level at
+                                            // the end of the verus! block
+                                            self.deferred_consts.push((c.clone(), it.text.clone()));
+                                        }
+                                    }
+                                }
+                            }
+                        }
                         let disp = fs.rename.clone().map(|n| format!("{} (as {n})", fs.path)).unwrap_or(fs.path.clone());
                         let start = self.cur_line();
                         self.emit(&format!("    // <<< {}:{} {}", fs.file, e.src_line, fs.path));
@@ -1973,6 +2022,12 @@ impl<'a> Gen<'a> {
                     other => return Err(format!("{path}:{}: unknown directive `{other}`", i + 1)),
                 }
             } else if emitting {
+                if depth == 0 && line.trim_start().starts_with("} // verus!") {
+                    let d: Vec<(String, String)> = std::mem::take(&mut self.deferred_consts);
+                    for (_, text) in d {
+                        self.emit(&text);
+                    }
+                }
                 self.emit(line);
             }
             i += 1;
@@ -1985,7 +2040,7 @@ pub fn gen(opts: &HashMap<String, String>) -> Result<(), String> {
     let get = |k: &str| opts.get(k).cloned().ok_or(format!("missing --{k}"));
     let cfg = Cfg { on: get("cfg")?.split(',').filter(|s| !s.is_empty()).map(String::from).collect() };
     let ctx = Ctx { cfg: &cfg, srcdir: get("src")?, sources: HashMap::new(), cnt: Counters { r: HashMap::new() }, dropped: vec![] };
-    let mut g = Gen { ctx, contracts: get("contracts")?, out: String::new(), map: vec![], trusted: vec![], assumed_depth: 0, proved_elsewhere: vec![], emitted_fns: HashSet::new(), included: HashSet::new() };
+    let mut g = Gen { ctx, contracts: get("contracts")?, out: String::new(), map: vec![], trusted: vec![], assumed_depth: 0, proved_elsewhere: vec![], emitted_fns: HashSet::new(), included: HashSet::new(), deferred_consts: vec![] };
     let tpl = get("template")?;
     set_expanded_path(opts.get("expanded").cloned());
     g.process(&tpl, 0)?;
